@@ -4,6 +4,8 @@ import Mathlib.Tactic.Positivity
 import Mathlib.Algebra.Order.Field.Basic
 import Mathlib.Algebra.Order.Floor.Semiring
 import Mathlib.Data.Rat.Floor
+import Mathlib.Tactic.FieldSimp
+import Mathlib.Tactic.Ring
 
 /-!
 # C13 — clauses that depend on the rounding behaviour of `f32`
@@ -28,6 +30,30 @@ structure IEEE {α : Type} (A : Arith α) where
   trunc_eq : ∀ a, 0 ≤ val a → A.trunc a = ⌊val a⌋₊
   val_zero : val A.zero = 0
   val_one : val A.one = 1
+  /-- points of the binary32 grid (24-bit significand, non-positive exponent) are not changed by rounding -/
+  rnd_grid : ∀ m j : ℕ, m < 2 ^ 24 → rnd ((m : ℚ) / 2 ^ j) = (m : ℚ) / 2 ^ j
+  /-- rounding goes to a nearest grid point: no grid point is closer to the argument than the result -/
+  rnd_nearest : ∀ (x : ℚ) (m j : ℕ), m < 2 ^ 24 → |rnd x - x| ≤ |(m : ℚ) / 2 ^ j - x|
+
+theorem exists_scale : ∀ (fuel c : ℕ), 1 ≤ c → c < 2 ^ 24 → 2 ^ 23 ≤ c * 2 ^ fuel →
+    ∃ j, 2 ^ 23 ≤ c * 2 ^ j ∧ c * 2 ^ j < 2 ^ 24
+  | 0, c, _, h2, h3 => ⟨0, by simpa using h3, by simpa using h2⟩
+  | fuel + 1, c, h1, h2, h3 => by
+    by_cases hc : 2 ^ 23 ≤ c
+    · exact ⟨0, by simpa using hc, by simpa using h2⟩
+    · have h2' : 2 * c < 2 ^ 24 := by
+        have : (2:ℕ) ^ 24 = 2 * 2 ^ 23 := by norm_num
+        omega
+      have h3' : 2 ^ 23 ≤ 2 * c * 2 ^ fuel := by
+        have : c * 2 ^ (fuel + 1) = 2 * c * 2 ^ fuel := by rw [pow_succ]; ring
+        omega
+      obtain ⟨j, hj1, hj2⟩ := exists_scale fuel (2 * c) (by omega) h2' h3'
+      refine ⟨j + 1, ?_, ?_⟩
+      · have : c * 2 ^ (j + 1) = 2 * c * 2 ^ j := by rw [pow_succ]; ring
+        omega
+      · have : c * 2 ^ (j + 1) = 2 * c * 2 ^ j := by rw [pow_succ]; ring
+        omega
+
 
 variable {α : Type} {A : Arith α} (I : IEEE A)
 include I
@@ -185,6 +211,154 @@ theorem C13_monotone (p₁ p₂ : ℕ) (len : Option ℕ) (h : p₁ ≤ p₂) (w
   apply mul_le_mul_of_nonneg_right (fraction_mono I p₁ p₂ len h)
   rw [I.val_ofNat, I.rnd_fix _ hc]; positivity
 
+/-- the largest value the fill can take for an incomplete bar, `cells·(1 − 2⁻²⁴)`, rounds to less than `cells` -/
+theorem rnd_below_cells (cells : ℕ) (h1 : 1 ≤ cells) (h2 : cells ≤ 2 ^ 24) :
+    I.rnd ((cells : ℚ) * (1 - 1 / 2 ^ 24)) < cells := by
+  have hc0 : (0 : ℚ) < cells := by exact_mod_cast h1
+  have hXlt : (cells : ℚ) * (1 - 1 / 2 ^ 24) < cells := by
+    have : (0:ℚ) < 1 / 2 ^ 24 := by positivity
+    nlinarith
+  by_cases hmax : cells = 2 ^ 24
+  · -- X = 2^24 - 1, a natural
+    have hX : (cells : ℚ) * (1 - 1 / 2 ^ 24) = ((2 ^ 24 - 1 : ℕ) : ℚ) := by
+      subst hmax; norm_num
+    rw [hX, I.rnd_fix _ (by norm_num)]
+    subst hmax; norm_num
+  · have hlt : cells < 2 ^ 24 := lt_of_le_of_ne h2 hmax
+    obtain ⟨j, hj1, hj2⟩ := exists_scale 23 cells h1 hlt (by nlinarith [Nat.one_le_two_pow (n := 23)])
+    have hP : (0 : ℚ) < 2 ^ j := by positivity
+    have hM : ((cells * 2 ^ j : ℕ) : ℚ) = (cells : ℚ) * 2 ^ j := by push_cast; ring
+    by_cases hpow : cells * 2 ^ j = 2 ^ 23
+    · -- cells is a power of two: X is on the grid
+      have hcq : (cells : ℚ) = 2 ^ 23 / 2 ^ j := by
+        rw [eq_div_iff (ne_of_gt hP), ← hM, hpow]; norm_num
+      have hX : (cells : ℚ) * (1 - 1 / 2 ^ 24) = ((2 ^ 24 - 1 : ℕ) : ℚ) / 2 ^ (j + 1) := by
+        rw [hcq]; field_simp; ring
+      rw [hX, I.rnd_grid _ _ (by norm_num), ← hX]
+      exact hXlt
+    · have hgt : 2 ^ 23 < cells * 2 ^ j := lt_of_le_of_ne hj1 (Ne.symm hpow)
+      have hnear := I.rnd_nearest ((cells : ℚ) * (1 - 1 / 2 ^ 24)) (cells * 2 ^ j - 1) j (by omega)
+      have hcast : ((cells * 2 ^ j - 1 : ℕ) : ℚ) = (cells : ℚ) * 2 ^ j - 1 := by
+        rw [Nat.cast_sub (by omega), hM]; norm_num
+      rw [hcast] at hnear
+      by_contra hge
+      rw [not_lt] at hge
+      -- distances
+      have hMq : (2 : ℚ) ^ 23 < (cells : ℚ) * 2 ^ j := by rw [← hM]; exact_mod_cast hgt
+      have hMq2 : (cells : ℚ) * 2 ^ j < 2 ^ 24 := by rw [← hM]; exact_mod_cast hj2
+      have hg : ((cells : ℚ) * 2 ^ j - 1) / 2 ^ j = (cells : ℚ) - 1 / 2 ^ j := by field_simp
+      rw [hg] at hnear
+      have hd1 : (cells : ℚ) - 1 / 2 ^ j - (cells : ℚ) * (1 - 1 / 2 ^ 24) ≤ 0 := by
+        have : (cells : ℚ) / 2 ^ 24 ≤ 1 / 2 ^ j := by
+          rw [div_le_div_iff₀ (by positivity) hP]; linarith
+        have e : (cells : ℚ) - 1 / 2 ^ j - (cells : ℚ) * (1 - 1 / 2 ^ 24) = (cells : ℚ) / 2 ^ 24 - 1 / 2 ^ j := by ring
+        rw [e]; linarith
+      rw [abs_of_nonpos hd1, abs_of_nonneg (by linarith)] at hnear
+      -- rnd X - X ≥ cells/2^24 and |g - X| = 1/2^j - cells/2^24; so 2·cells/2^24 ≤ 1/2^j, i.e. 2·M ≤ 2^24
+      have h3 : 2 * ((cells : ℚ) / 2 ^ 24) ≤ 1 / 2 ^ j := by
+        have e : (cells : ℚ) * (1 - 1 / 2 ^ 24) = (cells : ℚ) - (cells : ℚ) / 2 ^ 24 := by ring
+        rw [e] at hnear hge
+        linarith
+      have h4 : 2 * ((cells : ℚ) * 2 ^ j) ≤ 2 ^ 24 := by
+        have := mul_le_mul_of_nonneg_right h3 (le_of_lt (mul_pos hP (by positivity : (0:ℚ) < 2 ^ 24)))
+        field_simp at this
+        linarith
+      have : (2 : ℚ) ^ 24 = 2 * 2 ^ 23 := by norm_num
+      linarith
+
+/-- an incomplete bar (`pos < len ≤ 2²⁴`) has a completed fraction of at most `1 − 2⁻²⁴` -/
+theorem fraction_incomplete (pos l : ℕ) (hl : l ≤ 2 ^ 24) (h : pos < l) :
+    0 ≤ I.val (fraction A pos (some l)) ∧ I.val (fraction A pos (some l)) ≤ 1 - 1 / 2 ^ 24 := by
+  refine ⟨(fraction_range I pos (some l)).1, ?_⟩
+  have hb : (0 : ℚ) ≤ 1 - 1 / 2 ^ 24 := by norm_num
+  unfold fraction
+  cases l with
+  | zero => omega
+  | succ k =>
+    by_cases hp : pos = 0
+    · simp only [hp, if_true, I.val_zero]; exact hb
+    · simp only [hp, if_false]
+      have hk1 : ((k + 1 : ℕ) : ℚ) ≤ 2 ^ 24 := by exact_mod_cast hl
+      have hkpos : (0 : ℚ) < ((k + 1 : ℕ) : ℚ) := by positivity
+      have hne : I.val (A.ofNat (k + 1)) ≠ 0 := by
+        rw [I.val_ofNat, I.rnd_fix _ hl]; exact ne_of_gt hkpos
+      have hq : I.val (A.div (A.ofNat pos) (A.ofNat (k + 1))) ≤ 1 - 1 / 2 ^ 24 := by
+        rw [I.val_div _ _ hne, I.val_ofNat, I.val_ofNat, I.rnd_fix _ hl, I.rnd_fix _ (by omega)]
+        have hle : (pos : ℚ) / ((k + 1 : ℕ) : ℚ) ≤ ((2 ^ 24 - 1 : ℕ) : ℚ) / 2 ^ 24 := by
+          rw [div_le_div_iff₀ hkpos (by positivity)]
+          have hpk : (pos : ℚ) ≤ ((k + 1 : ℕ) : ℚ) - 1 := by
+            have hpk' : pos ≤ k := by omega
+            have : (pos : ℚ) ≤ (k : ℚ) := by exact_mod_cast hpk'
+            push_cast; linarith
+          have : ((2 ^ 24 - 1 : ℕ) : ℚ) = 2 ^ 24 - 1 := by norm_num
+          rw [this]
+          nlinarith
+        have := I.rnd_mono _ _ hle
+        rw [I.rnd_grid _ 24 (by norm_num)] at this
+        have e : ((2 ^ 24 - 1 : ℕ) : ℚ) / 2 ^ 24 = 1 - 1 / 2 ^ 24 := by norm_num
+        rw [e] at this
+        exact this
+      split
+      · rw [I.val_zero]; exact hb
+      · split
+        · rename_i h1
+          rw [I.lt_iff, I.val_one] at h1
+          have : (1 : ℚ) - 1 / 2 ^ 24 < 1 := by norm_num
+          linarith
+        · exact hq
+
+/-- **C13, "only then"**: for lengths up to 2²⁴ the bar is entirely filled *only* when `position ≥ length`:
+an incomplete bar always leaves at least one cell unfilled -/
+theorem C13_full_only_then (pos l : ℕ) (hl : l ≤ 2 ^ 24) (h : pos < l) (w cw n : ℕ) (hc1 : 1 ≤ w / cw) (hc : w / cw ≤ 2 ^ 24) :
+    (formatBar A (fraction A pos (some l)) w cw n).filled < w / cw := by
+  obtain ⟨v0, v1⟩ := fraction_incomplete I pos l hl h
+  have hfr := fraction_range I pos (some l)
+  obtain ⟨g0, _⟩ := fill_range I (fraction A pos (some l)) (w / cw) hc hfr.1 hfr.2
+  have hfill : I.val (A.mul (fraction A pos (some l)) (A.ofNat (w / cw))) < ((w / cw : ℕ) : ℚ) := by
+    rw [I.val_mul, I.val_ofNat, I.rnd_fix _ hc]
+    have hle : I.val (fraction A pos (some l)) * ((w / cw : ℕ) : ℚ) ≤ ((w / cw : ℕ) : ℚ) * (1 - 1 / 2 ^ 24) := by
+      have : (0 : ℚ) ≤ ((w / cw : ℕ) : ℚ) := by positivity
+      nlinarith
+    exact lt_of_le_of_lt (I.rnd_mono _ _ hle) (rnd_below_cells I (w / cw) hc1 hc)
+  show A.trunc (A.mul (fraction A pos (some l)) (A.ofNat (w / cw))) < w / cw
+  rw [I.trunc_eq _ g0]
+  exact (Nat.floor_lt g0).2 hfill
+
+
+/-- **C13, zero**: position 0 (non-zero length) and unknown length fill nothing: no filled cell, no partial cell -/
+theorem C13_zero_filled (pos : ℕ) (len : Option ℕ) (h : (pos = 0 ∧ len ≠ some 0) ∨ len = none) (w cw n : ℕ) :
+    formatBar A (fraction A pos len) w cw n = { filled := 0, cur := none, bg := w / cw } := by
+  have hf : I.val (fraction A pos len) = 0 := by
+    unfold fraction
+    rcases h with ⟨hp, hl⟩ | hl
+    · cases len with
+      | none => exact I.val_zero
+      | some l =>
+        cases l with
+        | zero => exact absurd rfl hl
+        | succ k => simp [hp, I.val_zero]
+    · subst hl; exact I.val_zero
+  have hfill : I.val (A.mul (fraction A pos len) (A.ofNat (w / cw))) = 0 := by
+    rw [I.val_mul, hf, zero_mul, I.rnd_zero]
+  have htr : A.trunc (A.mul (fraction A pos len) (A.ofNat (w / cw))) = 0 := by
+    rw [I.trunc_eq _ (by rw [hfill]), hfill]; simp
+  have hlt : A.lt A.zero (A.mul (fraction A pos len) (A.ofNat (w / cw))) = false := by
+    rw [Bool.eq_false_iff]; intro hc
+    rw [I.lt_iff, I.val_zero, hfill] at hc; exact lt_irrefl _ hc
+  unfold formatBar
+  simp [htr, hlt]
+
+/-- **C13, full exactly when complete** (lengths up to 2²⁴, at least one cell): all cells are filled iff `position ≥ length` -/
+theorem C13_full_iff (pos l : ℕ) (hl : l ≤ 2 ^ 24) (w cw n : ℕ) (hc1 : 1 ≤ w / cw) (hc : w / cw ≤ 2 ^ 24) :
+    (formatBar A (fraction A pos (some l)) w cw n).filled = w / cw ↔ l ≤ pos := by
+  constructor
+  · intro hfull
+    by_contra hlt
+    have := C13_full_only_then I pos l hl (by omega) w cw n hc1 hc
+    omega
+  · intro h
+    rw [C13_full I pos l h w cw n hc]
+
 omit I
 
 /-- exact rational arithmetic is an instance: the hypotheses of `IEEE` are consistent -/
@@ -210,5 +384,7 @@ def exactIEEE : IEEE exact where
   trunc_eq _ _ := rfl
   val_zero := rfl
   val_one := rfl
+  rnd_grid _ _ _ := rfl
+  rnd_nearest x m j _ := by simp
 
 end IndicatifModel.BarGeo
